@@ -146,6 +146,8 @@ def _opts(rnd):
          'strict_latex_spaces': rnd.choice(H.SLS_VALUES)}
     if rnd.random() < 0.3:
         o['keep_braced_groups'] = True
+        if rnd.random() < 0.5:
+            o['keep_braced_groups_minlen'] = rnd.choice([0, 1, 2, 3])
     if rnd.random() < 0.2:
         o['fill_text'] = rnd.choice([True, 30])
     return o
